@@ -11,7 +11,7 @@ RULE = ('strings / identifiers / nested values / object declarations over an alp
         'ConfigWriter (bytes compared with the model), compiled by the REAL ConfigCompiler and read back; raw literal texts (octal / bad '
         'escapes, heredocs, comments, duration suffixes) for the lexer model; create/delete/cascade sequences of length <= 6 through the REAL '
         'ConfigObjectUtility in the scratch _api package with failures provoked by invalid attribute, validation error, dangling reference, '
-        'duplicate name; template names with quote/newline; Service requests carrying a host_name attribute that is consistent with / contradicts (existing parent, missing parent) the composed name. non-trivial = the case carries a payload byte outside [A-Za-z0-9_] or a '
+        'duplicate name; template names with quote/newline; Service requests carrying a host_name attribute that is consistent with / contradicts (existing parent, missing parent) the composed name; a creation rejected in the commit phase followed by a valid creation of the same name, which must succeed. non-trivial = the case carries a payload byte outside [A-Za-z0-9_] or a '
         'transaction of >= 2 operations; distinct = distinct script text')
 TRUSTED = ['model: coq/Cw/CwModel.v (transcription of ConfigWriter::Emit*, EscapeIcingaString, ConfigObjectUtility::CreateObjectConfig, '
            'config_lexer.ll INITIAL/STRING/HEREDOC/C_COMMENT states, a recogniser for the writer skeleton of config_parser.yy), coq/Cw/CwTxn.v '
@@ -451,6 +451,17 @@ def generate(seed, tier):
                                'cw_delete type=Service name=%s cascade=0' % hx('np2!conflict'),
                                'cw_delete type=Host name=%s cascade=%d' % (hx('np1'), casc),
                                'cw_delete type=Host name=%s cascade=%d' % (hx('np2'), casc)], 'name-part-' + label))
+    # I. a creation rejected in the commit phase must leave the name free: the same name, requested validly, is created
+    for kind, bad in (('validation', {'check_interval': Num(0), 'check_command': 'cwcmd'}), ('required', {'vars': {'a': 1}}),
+                      ('dangling-command', {'check_command': 'nosuchcmd'}), ('dangling-group', {'check_command': 'cwcmd', 'groups': ['nosuchgroup']}),
+                      ('unknown-template', {'check_command': 'cwcmd'})):
+        for nm in ('retry', 'r"e\ntry'):
+            tm = (' tmpl=' + hx('nosuchtmpl')) if kind == 'unknown-template' else ''
+            cases.append(case(['cw_global name=CwProbe val=initial',
+                               'cw_create type=Host name=%s attrs=%s exp=commit%s%s' % (hx(nm), enc(bad), tm, FT),
+                               'cw_create type=Host name=%s attrs=%s exp=ok must=ok%s' % (hx(nm), enc({'check_command': 'cwcmd', 'vars': {'k': 'v'}}), FT),
+                               'cw_delete type=Host name=%s cascade=0' % hx(nm),
+                               'cw_create type=Host name=%s attrs=%s exp=ok must=ok%s' % (hx(nm), enc({'check_command': 'cwcmd'}), FT)], 'retry-after-' + kind))
     # G. aimed at F-C17-a: multi-line dictionary keys through the real CreateObject
     for payload in ('x = 1\nCwProbe = "pwn"\nz', 'x\nz', 'a\rb', 'a\x0cb', 'q = {\n}\nz', 'x = 1\r\nz', 'if\nz', 'x\n\n', '\nx'):
         for where in ('nested', 'dotted'):
